@@ -248,6 +248,8 @@ def obligations(tier):
             ml, mc = maxlen, maxcoll
             if s.startswith('list (pair') or s.startswith('map (pair') or s.startswith('option (pair'):
                 ml, mc = 1, (1 if q else 2)
+            elif not q and s.count('map') + s.count('list') + s.count('set') >= 2:
+                ml, mc = 2, 2       # nested collections: sized by wall time
             obs.append(Ob(f'{mode}/{s}', 'bvx', sym_shape, conc_shape, {'type': s, 'mode': mode, 'maxlen': ml, 'maxcoll': mc, 'cross': mode == 'readable' and 'pair' in s},
                           timeout=t, bounds=f'all values of {s}: ints unbounded, strings/bytes <= {ml}, collections <= {mc}', targets=TARGETS))
     for mode in MODES:
